@@ -109,7 +109,7 @@ alias Al = String(min_length=1, pattern="a")
     "alias doc"
 
 struct Base
-    "base :type:`Kid` :field:`b` :val:`null` :link:`t http://x`"
+    "base :type:`Kid` :field:`b` :val:`null` :link:`tt http://x`"
     union
         kid Kid
     b Int32 = 3
@@ -123,6 +123,7 @@ struct Base
 struct Kid extends Base
     k Al
         @Nw
+    j Int32(min_value=1, max_value=5)?
     m Map(String, List(Float64(max_value=2.5)))
     u U = v
     example default
@@ -141,7 +142,7 @@ union U
     example ex
         t = "2000"
 
-union_closed C extends U
+union C extends U
     c Bytes
 
 patch struct Kid
@@ -160,11 +161,12 @@ route r(Void, Void, Void) deprecated
 ]
 
 SMALL_BASES = [
-    'namespace a\n\nstruct S\n    f Int32 = 1\n        "doc"\n\nunion U\n    v\n    t S?\n\nroute r(S, U, Void)\n',
-    'namespace a\n\nalias A = List(String)?\n\nstruct P\n    union\n        c C\n    x A\n\nstruct C extends P\n    y Map(String, Int32)\n'
+    'namespace nn\n\nannotation R = RedactedHash()\n\nalias M = List(M)\n    @R\n\nalias K = Map(String, K)\n\nstruct S\n    g List(K)?\n        @R\n    h Float64(min_value=0, max_value=1.5) = 1\n',
+    'namespace nn\n\nstruct S\n    f Int32 = 1\n        "doc"\n\nunion U\n    v\n    t S?\n\nroute r(S, U, Void)\n',
+    'namespace nn\n\nalias A = List(String)?\n\nstruct P\n    union\n        c C\n    x A\n\nstruct C extends P\n    y Map(String, Int32)\n'
     '\n    example default\n        x = ["q"]\n        y = {"k": 1}\n',
-    'namespace a\n\nannotation O = Omitted("c")\n\nunion_closed U\n    t String\n        @O\n\npatch union_closed U\n    w\n\nroute r:2(Void, U, Void) deprecated by q\n'
-    '\nroute q(Void, Void, Void)\n    attrs\n        k = true\n',
+    'namespace nn\n\nannotation O = Omitted("c")\n\nunion_closed U\n    t String\n        @O\n\npatch union_closed U\n    w\n\nroute r:2(Void, U, Void) deprecated by q\n'
+    '\nroute q(Void, Void, Void)\n    "doc"\n',
 ]
 
 
